@@ -1,7 +1,10 @@
 """C01 — Cartesian regions: one half-open cell per point.
 
 Correspondence of csep.core.regions.CartesianGrid2D (get_index_of, get_masked, get_cartesian, bbox_mask / idx_map) and
-CSEPCatalog.filter_spatial / spatial_counts with Model/Region.lean, plus a direct exact oracle (fractions.Fraction)."""
+CSEPCatalog.filter_spatial / spatial_counts with Model/Region.lean, plus a direct exact oracle (fractions.Fraction).
+The float construction path (compute_vertex, Polygon.origin / centroid, bounding box, cleaner_range, midpoint hash, the loop of
+_build_bitmask_vec) and the lookups get_bbox / get_location_of / midpoints / origins / get_cell_area / to_dict / from_dict are
+compared with Model/RegionBuild.lean (ops c01_build, c01_area) on every region."""
 import bisect
 import glob
 import json
@@ -21,12 +24,23 @@ LEVEL_TEXT = ("Proof: on every lattice (any spacing, anchor, extent, holes, mask
               "filter_spatial, spatial_counts and get_cartesian are proved to be functions of that single partition "
               "(induction over the polygon list and the point list, no size bound). Tied to the code by a correspondence over "
               "random lattices and the shipped regions at every cell corner, edge midpoint, +-1..4 ulps around every edge, "
-              "band-edge points, holes and all outsides.")
+              "band-edge points, holes and all outsides. Soft64 layer: the float construction of a region (compute_vertex, "
+              "Polygon.centroid, bounding box, cleaner_range, bin1d_vec of the midpoints, the loop) is modelled operation by "
+              "operation and proved to hash the polygon of lattice cell (i, j) to (i, j) for every lattice with dh >= 2^-20, "
+              "coordinates within +-2^10 and at most 2^16 columns / rows (midpoint_hash_correct, fromOrigins_hashes_lattice; "
+              "bin1d_vec proved exact in the middle half of every bin; end to end for decimal lattices, where xs / ys are "
+              "proved to be the nearest doubles of the decimal grid: decimal_lattice_construction), kernel-checked on every column and row of four shipped "
+              "regions, and compared bit for bit with the real constructor on every generated and shipped region.")
 LEVEL_NOTE = ("The 1-D lookup is modelled by its exact meaning (last edge <= x, closed top); the float formula of bin1d_vec is "
               "the subject of C02. Inside the documented round-off band immediately below a boundary "
               "(eps*(6|x| + (2m+6)|a0|) + 2^-1022, eps = 2^-52) either adjacent cell is accepted, outside the band the answer must "
-              "be exact. The bounding-box position (i, j) of each polygon is supplied by the harness from the lattice "
-              "coordinates and cross-checked through bbox_mask / idx_map / get_cartesian.")
+              "be exact. For the exact-layer op the bounding-box position (i, j) of each polygon is supplied by the harness from "
+              "the lattice coordinates; the Soft64 op c01_build computes it from the origins like the code does and both are "
+              "compared with bbox_mask / idx_map / get_cartesian. midpoint_hash_correct assumes the edge arrays lie within 2^-41 "
+              "of the lattice (NearLattice; proved for decimal inputs by C02's cleanerRange_exact, checked by the kernel on the "
+              "shipped arrays, validated bit for bit on every run); the number of decimals repr() shows is a model input. "
+              "Cell areas: closed form, additivity and positivity are proved over a field / the reals; the float evaluation "
+              "(libm cosine) is compared to 1e-9 with a cancellation-aware absolute term.")
 DESIGN_REF = "DESIGN.md §4 C01"
 TECHNIQUE = "Lean 4 proof (exact layer) + differential correspondence + exact direct oracle"
 
@@ -35,22 +49,36 @@ THEOREMS = ["Region.col_eq_iff", "Region.row_eq_iff", "Region.col_eq_floor", "Re
             "Region.getIndexOf_ok_iff", "Region.getMasked_iff", "Region.index_error_iff_masked",
             "Region.index_error_iff_any_masked", "Region.unique_cell", "Region.apis_agree", "Region.cartesian_agrees",
             "Region.order_irrelevant", "Region.exact_mem_allowed", "Region.allowed_exact_outside_band",
-            "Region.col_eq_iff_sorted", "Region.col_mono"]
+            "Region.col_eq_iff_sorted", "Region.col_mono",
+            "Region.midpoint_hash_correct", "Region.cell_centre_hash_exact", "Region.interior_bin_exact",
+            "Region.fromOrigins_hashes_lattice", "Region.decimal_lattice_construction", "Region.inferred_spacing_exact", "Region.table_shipped_midpoints", "Region.location_of_index",
+            "Region.location_of_negative_index", "Region.location_index_error", "Region.origins_roundtrip",
+            "Region.area_eq_closed_form", "Region.area_additive", "Region.area_pos"]
 TRUSTED = ["Lean 4.33 kernel", "axioms: propext, Classical.choice, Quot.sound at most",
            "the float formula of csep.utils.calc.bin1d_vec agrees with the exact lookup outside the round-off band "
            "(property C02; here checked point by point by the correspondence)",
-           "bounding-box position (i, j) of each polygon computed by the harness from the generating lattice "
-           "(cross-checked against region.idx_map / bbox_mask)",
+           "bounding-box position (i, j) of each polygon for the exact-layer op computed by the harness from the generating "
+           "lattice (cross-checked against region.idx_map / bbox_mask and against the Soft64 construction model c01_build)",
+           "Soft64.fl64 is IEEE-754 binary64 round-to-nearest-even and Python/numpy + - * / round are that arithmetic "
+           "(validated bit for bit on every region: bitexact_agreement)",
+           "num_decimals of repr(float) (input of the cleaner_range model, computed by the harness with the code's rule)",
+           "edge tables of the shipped regions in Proofs/Bin1dTables*.lean (compared with the real regions by C02's harness)",
+           "libm cosine (cell areas compared numerically)",
            "Soft64 binary64 addition/subtraction for the upper side xs[-1] + (xs[1] - xs[0])",
            "harness/c01.py generators, exact oracle and comparison; driver parsing (Proto.lean)"]
 RULE = ("lattices: spacing from {0.05,0.1,0.25,0.5,1,2} or a random 1-3 digit decimal, anchors negative / positive / "
         "zero-crossing / |anchor| << spacing, origins as nearest doubles of the decimal lattice or computed in binary64 "
-        "(anchor + k*dh, a few ulps off), shapes 1x1, 1xn, nx1, small, medium, holes (random, rectangular, whole "
+        "(anchor + k*dh, a few ulps off), constructors from_origins with dh, from_origins without dh (spacing inferred from the "
+        "first two, adjacent, origins) and CartesianGrid2D(polygons, dh, mask), shapes 1x1, 1xn, nx1, small, medium, holes (random, rectangular, whole "
         "column/row), duplicates, mask flags, shuffled / row-major / column-major polygon order, both constructors; shipped "
         "regions NZ, NZ-collection, Italy-collection, California-collection, global(1, 0.5). Points: every cell corner, edge "
         "midpoint and centre, +-1..4 ulps around every edge coordinate, 1.5x and 3x the band below each edge, hole centres, "
         "the four outsides, corners outside, far outside. A case is one (region, point); non-trivial when the point lies on "
-        "or within 4 ulps / 3 bands of a cell boundary, in a hole, or outside; distinct by (region id, lon, lat)")
+        "or within 4 ulps / 3 bands of a cell boundary, in a hole, or outside; distinct by (region id, lon, lat). Two points of every "
+        "query class of a region (inside, band, hole, flagged-out, outside W/E/S/N and corners) are also looked up singly as Python "
+        "float, numpy.float64, 0-d array, 1-element list and 1-element array, and as one-event catalogs. Per region "
+        "additionally: the construction path (vertices, origins, midpoints and their own-cell lookup, edge arrays, midpoint hash, "
+        "bbox_mask / idx_map, get_bbox, get_location_of with negative and out-of-range indices, to_dict / from_dict, cell areas)")
 
 EPS = Fraction(1, 2 ** 52)
 TINY = Fraction(1, 2 ** 1022)  # gradual underflow of the quotient in bin1d_vec
@@ -107,6 +135,9 @@ def build_region(spec):
     if spec.get("ctor") == "polygons" or mask is not None:
         polys = [Polygon(b) for b in compute_vertices(origins, dhf)]
         region = CartesianGrid2D(polys, dhf, mask=None if mask is None else list(mask))
+    elif spec.get("ctor") == "from_origins_nodh":
+        # spacing inferred by the library from the first two origins (adjacent cells), regions.py:745-753
+        region = CartesianGrid2D.from_origins(numpy.array(origins))
     else:
         region = CartesianGrid2D.from_origins(numpy.array(origins), dh=dhf)
     imin = min(i for i, _ in spec["cells"])
@@ -303,13 +334,85 @@ def impl_catalog(region, pts):
     return sc, fs, fs2
 
 
+# ----------------------------------------------------------------------------------------------- input forms
+FORMS = [("float", float), ("numpy.float64", numpy.float64), ("0-d array", lambda v: numpy.array(v)),
+         ("1-element list", lambda v: [v]), ("1-element array", lambda v: numpy.array([v]))]
+
+
+def point_class(orc, p, inband):
+    """query class of a point: where it lies relative to the bounding box (W/E, S/N), else inside / band / hole / flagged-out"""
+    ex = orc.ax.exact(p[0], Fraction(p[0]))
+    ey = orc.ay.exact(p[1], Fraction(p[1]))
+    cx = "" if ex is not None else ("W" if p[0] < orc.ax.e[0] else "E")
+    cy = "" if ey is not None else ("S" if p[1] < orc.ay.e[0] else "N")
+    if cx or cy:
+        return "outside-" + cy + cx
+    if inband:
+        return "band"
+    if (ex, ey) in orc.active:
+        return "inside"
+    return "flagged-out" if (ex, ey) in orc.last else "hole"
+
+
+def check_input_forms(run, base, region, orc, pts, ans, masked, rng, per_class=2):
+    """get_index_of / get_masked on single points given as Python float, numpy.float64, 0-d array, 1-element list and
+    1-element array must give what the array lookup gives for that point (index, or ValueError / masked when outside).
+    Returns one point index per query class (for the one-event catalogs)."""
+    classes = {}
+    order = list(range(len(pts)))
+    if rng is not None:
+        rng.shuffle(order)
+    for k in order:
+        c = point_class(orc, pts[k], orc.allowed(pts[k][0], pts[k][1])[2])
+        if len(classes.setdefault(c, [])) < per_class:
+            classes[c].append(k)
+    first = []
+    for c in sorted(classes):
+        first.append(classes[c][0])
+        for k in classes[c]:
+            p = pts[k]
+            for fname, f in FORMS:
+                scalar = fname in ("float", "numpy.float64", "0-d array")
+                run.case(None, None)
+                run.count("input-form:" + fname)
+                try:
+                    v = numpy.asarray(region.get_index_of(f(p[0]), f(p[1])))
+                    single = int(v.ravel()[0]) if v.size == 1 and float(v.ravel()[0]) == int(v.ravel()[0]) else f"shape{v.shape}:{v.ravel()[:3]}"
+                except ValueError:
+                    single = "o"
+                except Exception as e:
+                    single = "EXC:" + type(e).__name__
+                if single != ans[k]:
+                    run.count("ORACLE-FAIL-input-form")
+                    run.oracle_failure(dict(base, points=[[repr(p[0]), repr(p[1])]], form=fname),
+                                       f"get_index_of of the single point ({p[0]!r}, {p[1]!r}) [{c}] given as {fname} is {single!r}; the array "
+                                       f"lookup of the same point gives {ans[k]!r}")
+                try:
+                    m = numpy.asarray(region.get_masked(f(p[0]), f(p[1])))
+                    m1 = bool(m.ravel()[0]) if m.size == 1 else f"shape{m.shape}"
+                except (ValueError, TypeError) as e:
+                    # numpy >= 2 rejects `numpy.where` of a 0-d array: get_masked does not accept scalars at all (every point)
+                    m1 = "unsupported" if scalar else "EXC:" + type(e).__name__
+                except Exception as e:
+                    m1 = "EXC:" + type(e).__name__
+                if m1 == "unsupported":
+                    run.count("get_masked-scalar-unsupported")
+                elif m1 != bool(masked[k]) or (single == "o") != m1:
+                    run.count("ORACLE-FAIL-input-form")
+                    run.oracle_failure(dict(base, points=[[repr(p[0]), repr(p[1])]], form=fname),
+                                       f"get_masked of the single point ({p[0]!r}, {p[1]!r}) [{c}] given as {fname} is {m1!r}; the array lookup "
+                                       f"gives masked={bool(masked[k])}, get_index_of {single!r}")
+    return first
+
+
+
 # ----------------------------------------------------------------------------------------------- one region
 def region_key(spec):
     return json.dumps(spec, sort_keys=True) if spec["kind"] == "shipped" else \
         json.dumps([spec["ax"], spec["ay"], spec["dh"], spec["cells"], spec.get("mask"), spec.get("origins")])
 
 
-def check_region(run, drv, pending, spec, pts=None, rng=None, budget=1500, arrays=True, ncat=4, tag=""):
+def check_region(run, drv, pending, spec, pts=None, rng=None, budget=1500, arrays=True, ncat=4, tag="", build=True):
     try:
         region, cells, flags = build_region(spec)
     except Exception as e:
@@ -348,6 +451,8 @@ def check_region(run, drv, pending, spec, pts=None, rng=None, budget=1500, array
     elif off:
         run.count("float-origins-off-edge-by-ulps", off)
     orc = Oracle(region, cells, flags)
+    if build:
+        check_build(run, drv, pending, spec, base, region, cells, flags, orc, rng)
     if pts is None:
         pts = make_points(orc, sorted(set(cells)), rng, budget)
     rid = hash(region_key(spec))
@@ -403,20 +508,8 @@ def check_region(run, drv, pending, spec, pts=None, rng=None, budget=1500, array
         k = next((k for k in range(len(cells)) if ogot is None or ogot[k] != oexp[k]), 0)
         run.oracle_failure(dict(base, points=[[repr(float(olon[k])), repr(float(olat[k]))]]),
                            f"origin of polygon {k} is attributed to {None if ogot is None else ogot[k]!r}, expected {oexp[k]!r}")
-    # scalar / list input paths on a few points
-    for k in (rng.sample(range(len(pts)), min(12, len(pts))) if rng else range(min(len(pts), 12))):
-        p = pts[k]
-        try:
-            v = region.get_index_of([p[0]], [p[1]])
-            single = int(numpy.asarray(v).ravel()[0])
-        except ValueError:
-            single = "o"
-        except Exception as e:
-            single = "EXC:" + type(e).__name__
-        m1 = bool(numpy.asarray(region.get_masked([p[0]], [p[1]])).ravel()[0])
-        if single != ans[k] or m1 != bool(masked[k]) or (single == "o") != m1:
-            run.oracle_failure(dict(base, points=[[repr(p[0]), repr(p[1])]]),
-                               f"one-point lookup {single!r}/masked={m1} differs from the array lookup {ans[k]!r}/masked={bool(masked[k])}")
+    # every query class also through scalar calls (Python float, numpy.float64, 0-d array) and 1-element list / array
+    single_ids = check_input_forms(run, base, region, orc, pts, ans, masked, rng)
     # catalogs: all points; only unmasked points; random subsets (with duplicates); empty
     cats = []
     if ncat > 0:
@@ -424,6 +517,8 @@ def check_region(run, drv, pending, spec, pts=None, rng=None, budget=1500, array
         pool = list(range(len(pts)))
         cats.append(inside[:400])
         cats.append([])
+        for k in single_ids:          # one-event catalogs, one per query class (inside, band, hole, flagged-out, each outside)
+            cats.append([k])
         if rng is not None:
             ex_in = [k for k in inside if k in set(exact_only)]
             ex_all = list(exact_only)
@@ -507,6 +602,12 @@ def _near_boundary(orc, p):
 def flush(run, drv, pending):
     out = drv.run()
     for rec in pending:
+        if rec.get("kind") == "build":
+            flush_build(run, rec, out[rec["q"]])
+            continue
+        if rec.get("kind") == "area":
+            flush_area(run, rec, out[rec["q"]])
+            continue
         toks = out[rec["q"]].split(" ")
         base = rec["base"]
         if len(toks) != 3:
@@ -547,6 +648,325 @@ def flush(run, drv, pending):
                                  dict(sc=str(sc)[:200], fs=str(i_fs)[:200], gi=str(i_gi)[:200]), s[:600])
     pending.clear()
     drv.lines = []
+
+
+
+# ----------------------------------------------------------------------------------------------- construction path
+REL = 1e-9  # tolerance of the property-level oracles on computed coordinates (harmless rewrites stay inside it)
+
+
+def num_decimals(x):
+    """calc.py:237 (cleaner_range): decimal places of the shortest decimal string that reads back as x"""
+    return max(0, -Decimal(repr(float(x))).as_tuple().exponent)
+
+
+def _bits(run, ok, what):
+    b = run.extra.setdefault("_bit", [0, 0, {}])
+    b[1] += 1
+    if ok:
+        b[0] += 1
+    else:
+        b[2][what] = b[2].get(what, 0) + 1
+
+
+def check_build(run, drv, pending, spec, base, region, cells, flags, orc, rng):
+    """the float construction path: compute_vertex, Polygon.origin / centroid, bounding box, cleaner_range, the
+    midpoint hash, the loop of _build_bitmask_vec, get_bbox, get_location_of, midpoints(), origins(), get_cell_area,
+    to_dict / from_dict — direct oracles on the implementation's output, then the Lean op `c01_build` / `c01_area`"""
+    from csep.utils.calc import bin1d_vec
+    n = len(region.polygons)
+    nx, ny = len(region.xs), len(region.ys)
+    dh = region.dh
+    dhf = float(dh)
+    loose = spec["kind"] == "shipped" or spec.get("origins") == "float"
+    try:
+        pts4 = numpy.array([numpy.asarray(p.points, dtype=float) for p in region.polygons])   # n x 4 x 2
+        org = numpy.asarray(region.origins(), dtype=float)
+        mids = numpy.asarray(region.midpoints(), dtype=float)
+        bbox = [float(v) for v in region.get_bbox()]
+    except Exception as e:
+        run.oracle_failure(dict(base, points=[], what="build"), f"origins()/midpoints()/get_bbox() raised {type(e).__name__}: {e}")
+        return
+    run.case(None, None)
+    run.count("build")
+    # --- direct oracles ------------------------------------------------------------------------------------
+    bad = None
+    if pts4.shape != (n, 4, 2) or org.shape != (n, 2) or mids.shape != (n, 2):
+        bad = f"shapes: polygons {pts4.shape}, origins() {org.shape}, midpoints() {mids.shape} for {n} polygons"
+    if bad is None and spec["kind"] != "shipped":
+        given = numpy.array(lattice_origins(spec), dtype=float)
+        if given.shape != org.shape or not numpy.array_equal(given, org):
+            k = int(numpy.argmax(numpy.any(given != org, axis=1))) if given.shape == org.shape else 0
+            bad = f"origins()[{k}] = {org[k].tolist()!r} is not the origin the region was built from {given[k].tolist()!r}"
+    if bad is None and not numpy.array_equal(pts4[:, 0, :], org):
+        bad = "origins() differs from the first vertex of the polygons"
+    if bad is None:
+        scale = numpy.maximum(1.0, numpy.maximum(numpy.abs(org), abs(dhf)))
+        # vertices: (o, o), (o, u), (u, u), (u, o) with u = o + dh up to the overlap tolerance, never beyond o + dh
+        up = org + dhf
+        exp4 = numpy.stack([org, numpy.column_stack((org[:, 0], up[:, 1])), up, numpy.column_stack((up[:, 0], org[:, 1]))], axis=1)
+        d4 = numpy.abs(pts4 - exp4) / scale[:, None, :]
+        if numpy.any(d4 > REL):
+            k = int(numpy.argmax(numpy.max(d4, axis=(1, 2))))
+            bad = f"polygon {k} vertices {pts4[k].tolist()!r} are not the box of origin {org[k].tolist()!r}, dh={dh!r}"
+        elif numpy.any(pts4 > exp4):
+            k = int(numpy.argmax(numpy.max(pts4 - exp4, axis=(1, 2)) > 0))
+            bad = (f"polygon {k} reaches beyond its half-open box: vertices {pts4[k].tolist()!r}, origin + dh = {up[k].tolist()!r} "
+                   f"(cells would overlap)")
+        dm = numpy.abs(mids - (org + dhf / 2)) / scale
+        if bad is None and numpy.any(dm > REL):
+            k = int(numpy.argmax(numpy.max(dm, axis=1)))
+            bad = f"midpoints()[{k}] = {mids[k].tolist()!r} is not origin + dh/2 = {(org[k] + dhf / 2).tolist()!r}"
+        ebox = [float(region.xs[0]), float(region.xs[-1]) + dhf, float(region.ys[0]), float(region.ys[-1]) + dhf]
+        if bad is None and any(abs(a - b) > REL * max(1.0, abs(b)) for a, b in zip(bbox, ebox)):
+            bad = f"get_bbox() = {bbox!r}, expected {ebox!r}"
+    if bad:
+        run.count("ORACLE-FAIL-build")
+        run.oracle_failure(dict(base, points=[], what="build"), bad)
+        return
+    # every cell's midpoint belongs to that cell (the last one listed at its position, if active)
+    mm = numpy.asarray(region.get_masked(mids[:, 0], mids[:, 1])).astype(bool)
+    mexp = [orc.at(i, j) for (i, j) in cells]
+    mgot = ["o"] * n
+    keep = numpy.where(~mm)[0]
+    if len(keep):
+        try:
+            for k, v in zip(keep, region.get_index_of(mids[keep, 0], mids[keep, 1])):
+                mgot[k] = int(v)
+        except Exception:
+            mgot = None
+    run.case(None, None)
+    run.count("own-midpoints")
+    if mgot != mexp:
+        k = next((k for k in range(n) if mgot is None or mgot[k] != mexp[k]), 0)
+        run.oracle_failure(dict(base, points=[[repr(float(mids[k, 0])), repr(float(mids[k, 1]))]]),
+                           f"midpoint of polygon {k} is attributed to {None if mgot is None else mgot[k]!r}, expected {mexp[k]!r}")
+    # get_location_of: the polygon objects themselves; Python indexing for negative / out-of-range indices
+    loc = [0, n - 1, -1, -n] + ([rng.randrange(-n, n) for _ in range(6)] if rng else [])
+    if rng is not None and rng.random() < 0.3:
+        loc.append(rng.choice([n, -n - 1, n + 5]))
+    try:
+        got = region.get_location_of(numpy.array(loc, dtype=numpy.int64))
+        locres = []
+        for k, g in zip(loc, got):
+            where = [m for m in ((k % n),) if region.polygons[m] is g]
+            locres.append(where[0] if where else "?")
+    except IndexError:
+        locres = "IndexError"
+    except Exception as e:
+        locres = "EXC:" + type(e).__name__
+    lexp = "IndexError" if any(not (-n <= k < n) for k in loc) else [k % n for k in loc]
+    run.case(None, None)
+    run.count("get_location_of")
+    if locres != lexp:
+        run.oracle_failure(dict(base, points=[], what="get_location_of", indices=loc),
+                           f"get_location_of({loc}) gave polygons {locres!r}, expected {lexp!r}")
+    # to_dict / from_dict: the rebuilt region is the same partition; magnitudes handed to from_dict are bound
+    if spec["kind"] != "shipped" and region.poly_mask is None and n <= 400:
+        check_dict(run, base, region)
+    # cell areas
+    if n <= 3000 or spec["kind"] == "shipped":
+        check_area(run, drv, pending, base, region, org, dhf, rng)
+    # do the hypotheses of Region.midpoint_hash_correct / fromOrigins_hashes_lattice hold for this region? (NearLattice of
+    # both edge arrays, origins and spacing within 2^-41 of the decimal lattice); reported, not required
+    try:
+        la = Fraction(Decimal(repr(float(region.xs[0])))), Fraction(Decimal(repr(float(region.ys[0]))))
+        ldh = Fraction(Decimal(repr(dhf)))
+        T = Fraction(1, 2 ** 41)
+        ok = abs(Fraction(dhf) - ldh) <= T and ldh >= Fraction(1, 2 ** 20)
+        for axis, a0, edges, col in ((0, la[0], region.xs, 0), (1, la[1], region.ys, 1)):
+            ne = len(edges)
+            ok = ok and 2 <= ne <= 2 ** 16 and a0 >= -1024 and a0 + ne * ldh <= 1024 and \
+                all(abs(Fraction(float(e)) - (a0 + k * ldh)) <= T for k, e in enumerate(edges))
+            ok = ok and all(abs(Fraction(float(org[k, col])) - (a0 + cells[k][axis] * ldh)) <= T
+                            for k in (range(n) if n <= 2000 else rng.sample(range(n), 2000) if rng else range(2000)))
+        run.count("midpoint_hash_correct hypotheses hold" if ok else "midpoint_hash_correct hypotheses do not hold "
+                  "(single row/column, |coordinate| > 1024 or off-lattice)")
+    except Exception:
+        run.count("midpoint_hash_correct hypotheses not evaluated")
+    # --- the Lean model of the construction ------------------------------------------------------------------
+    hx = bin1d_vec(mids[:, 0], region.xs)
+    hy = bin1d_vec(mids[:, 1], region.ys)
+    arrays = nx * ny * n <= 30_000_000
+    fl = "none" if region.poly_mask is None else ",".join("1" if m == 1 else "0" for m in region.poly_mask)
+    if spec.get("ctor") == "from_origins_nodh":
+        # the model infers the spacing like the code does, from the exact values of the decimal strings repr shows for the first
+        # two origins (a Python runtime fact used as model input: float(repr(x)) == x, checked here)
+        reps = [Decimal(repr(float(org[k, c]))) for k in (0, 1) for c in (0, 1)]
+        if any(float(d) != float(org[k, c]) for d, (k, c) in zip(reps, [(0, 0), (0, 1), (1, 0), (1, 1)])):
+            raise RuntimeError("float(repr(x)) != x")
+        dharg = "none:" + ",".join(frac(Fraction(d)) for d in reps)
+        run.count("build:from_origins-without-dh")
+        # direct oracle: the spacing of the region is the spacing of the lattice it was built from
+        if float(dh) != float(Decimal(spec["dh"])):
+            run.count("ORACLE-FAIL-build")
+            run.oracle_failure(dict(base, points=[], what="build"),
+                               f"from_origins without dh inferred dh={float(dh)!r} for origins on the lattice with spacing {spec['dh']}")
+    else:
+        dharg = frac(dhf)
+    line = " ".join(["c01_build", ",".join(frac(v) for v in org[:, 0]), ",".join(frac(v) for v in org[:, 1]), dharg, fl,
+                     str(num_decimals(org[:, 0].min())), str(num_decimals(org[:, 1].min())), str(num_decimals(dh)),
+                     "1" if arrays else "0", ",".join(str(k) for k in loc)])
+    q = drv.ask(line)
+    pending.append(dict(kind="build", q=q, base=base, n=n, arrays=arrays, loose=loose,
+                        xs=[Fraction(float(v)) for v in region.xs], ys=[Fraction(float(v)) for v in region.ys],
+                        ux=pts4[:, 2, 0].copy(), uy=pts4[:, 2, 1].copy(), mids=mids,
+                        hash=[f"{int(a)}:{int(b)}" for a, b in zip(hx, hy)],
+                        mask=[ "".join(str(int(v)) for v in row) for row in region.bbox_mask] if arrays else None,
+                        imap=[",".join("n" if math.isnan(v) else str(int(v)) for v in row) for row in region.idx_map] if arrays else None,
+                        idx_map=None if arrays else region.idx_map, bbox_mask=None if arrays else region.bbox_mask,
+                        flags=flags, bbox=bbox, loc=locres, dh=Fraction(dhf)))
+
+
+def flush_build(run, rec, line):
+    base = dict(rec["base"], points=[], what="build")
+    toks = line.split(" ")
+    if len(toks) != 12:
+        run.mismatch(base, "c01_build", line[:200])
+        return
+    dhm, xs, ys, ux, uy, mx, my, hs, mask, imap, bb, loc = toks
+    F = lambda s: [] if s == "-" else [Fraction(v) for v in s.split(",")]
+    xs, ys = F(xs), F(ys)
+    # discrete outputs: any difference is a difference of the partition
+    if len(xs) != len(rec["xs"]) or len(ys) != len(rec["ys"]):
+        run.mismatch(base, f"xs/ys sizes {len(rec['xs'])} x {len(rec['ys'])}", f"{len(xs)} x {len(ys)}")
+        return
+    hm = hs.split(",")
+    if hm != rec["hash"]:
+        k = next((k for k in range(min(len(hm), len(rec["hash"]))) if hm[k] != rec["hash"][k]), 0)
+        run.mismatch(dict(base, polygon=k), f"midpoint of polygon {k} hashed to (idx:idy) {rec['hash'][k]}", hm[k] if k < len(hm) else "-")
+    if rec["arrays"]:
+        if mask.split(";") != rec["mask"]:
+            run.mismatch(dict(base, what="bbox_mask"), str(rec["mask"])[:300], mask[:300])
+        if imap.split(";") != rec["imap"]:
+            run.mismatch(dict(base, what="idx_map"), str(rec["imap"])[:300], imap[:300])
+    else:
+        # large regions: the arrays must be what the loop makes of the model's hash (last writer wins; flag clears the mask)
+        h = numpy.array([[int(t) for t in e.split(":")] for e in hm])
+        im = numpy.full(rec["idx_map"].shape, numpy.nan)
+        bm = numpy.ones(rec["bbox_mask"].shape)
+        for k in range(len(h)):
+            im[h[k, 1], h[k, 0]] = k
+            if h[k, 0] >= 0 and h[k, 1] >= 0 and rec["flags"][k] == 1:
+                bm[h[k, 1], h[k, 0]] = 0
+        if not numpy.array_equal(bm, rec["bbox_mask"]) or not numpy.array_equal(numpy.nan_to_num(im, nan=-1.0),
+                                                                                 numpy.nan_to_num(rec["idx_map"], nan=-1.0)):
+            run.mismatch(dict(base, what="bbox_mask/idx_map"), "arrays of the region", "arrays built from the model's midpoint hash")
+    lm = "IndexError" if loc == "IndexError" else [int(v) for v in loc.split(",")]
+    if lm != rec["loc"]:
+        run.mismatch(dict(base, what="get_location_of"), str(rec["loc"]), str(lm))
+    # float outputs: bit-exact agreement is recorded; a difference inside the oracles' tolerance is not a violation
+    _bits(run, Fraction(dhm) == rec["dh"], "dh")
+    _bits(run, xs == rec["xs"], "xs")
+    _bits(run, ys == rec["ys"], "ys")
+    _bits(run, F(ux) == [Fraction(float(v)) for v in rec["ux"]] and F(uy) == [Fraction(float(v)) for v in rec["uy"]], "vertices")
+    _bits(run, F(mx) == [Fraction(float(v)) for v in rec["mids"][:, 0]] and F(my) == [Fraction(float(v)) for v in rec["mids"][:, 1]],
+          "midpoints")
+    _bits(run, F(bb) == [Fraction(v) for v in rec["bbox"]], "get_bbox")
+
+
+def check_dict(run, base, region):
+    from csep.core.regions import CartesianGrid2D
+    run.case(None, None)
+    run.count("to_dict/from_dict")
+    try:
+        d = region.to_dict()
+        d2 = json.loads(json.dumps(d))                     # as written to and read from a result file
+        mags = [4.95, 5.05, 5.15]
+        r2 = CartesianGrid2D.from_dict(dict(d2, magnitudes=mags))
+        r3 = CartesianGrid2D.from_dict(d2)
+    except Exception as e:
+        run.oracle_failure(dict(base, points=[], what="to_dict/from_dict"), f"to_dict / from_dict raised {type(e).__name__}: {e}")
+        return
+    same = (numpy.array_equal(r2.xs, region.xs) and numpy.array_equal(r2.ys, region.ys) and
+            numpy.array_equal(r2.bbox_mask, region.bbox_mask) and
+            numpy.array_equal(numpy.nan_to_num(r2.idx_map, nan=-1.0), numpy.nan_to_num(region.idx_map, nan=-1.0)) and
+            numpy.array_equal(numpy.asarray(r2.origins(), dtype=float), numpy.asarray(region.origins(), dtype=float)) and
+            float(r2.dh) == float(region.dh) and len(r2.polygons) == len(region.polygons))
+    if not same or not (r3 == region) or r3.magnitudes is not None or \
+            r2.magnitudes is None or [float(m) for m in r2.magnitudes] != mags:
+        run.oracle_failure(dict(base, points=[], what="to_dict/from_dict"),
+                           f"from_dict(to_dict(region)) is not the same region (same arrays: {same}, ==: {r3 == region}, "
+                           f"magnitudes bound: {None if r2.magnitudes is None else list(r2.magnitudes)!r})")
+
+
+R_EARTH = 6371.0
+
+
+def _area_exact(lon1, lat1, lon2, lat2):
+    """R^2 * dlon(rad) * (sin lat2 - sin lat1), the area of a latitude-longitude box on the sphere, without the cancellation
+    of the 1 - cos(colatitude) form: sin b - sin a = 2 cos((a+b)/2) sin((b-a)/2)"""
+    a, b = math.radians(lat1), math.radians(lat2)
+    return R_EARTH ** 2 * math.radians(lon2 - lon1) * 2.0 * math.cos((a + b) / 2) * math.sin((b - a) / 2)
+
+
+def _area_tol(lon1, lon2):
+    """a few rounding errors of the two terms 2*pi*(1 - cos(.)) (each up to 4*pi) that the code subtracts"""
+    return 64 * 2.0 ** -52 * 4 * math.pi * R_EARTH ** 2 * abs(lon2 - lon1) / 360.0
+
+
+def check_area(run, drv, pending, base, region, org, dhf, rng):
+    import struct
+    from csep.core.regions import geographical_area_from_bounds as gab
+    n = len(org)
+    # areas are those of geographic cells: only for lattices inside [-90, 90] of latitude
+    if numpy.any(org[:, 1] < -90) or numpy.any(org[:, 1] + dhf > 90):
+        run.count("area-skipped (latitudes beyond the poles)")
+        return
+    try:
+        area = numpy.asarray(region.get_cell_area(), dtype=float)
+    except Exception as e:
+        run.oracle_failure(dict(base, points=[], what="get_cell_area"), f"get_cell_area raised {type(e).__name__}: {e}")
+        return
+    run.case(None, None)
+    run.count("get_cell_area")
+    bad = None
+    if area.shape != (n,):
+        bad = f"get_cell_area() has shape {area.shape} for {n} polygons"
+    else:
+        for k in (range(n) if n <= 400 else sorted(set([0, n - 1] + [rng.randrange(n) for _ in range(400)])) if rng else range(min(n, 400))):
+            lon1, lat1 = float(org[k, 0]), float(org[k, 1])
+            lon2, lat2 = lon1 + dhf, lat1 + dhf
+            ex = _area_exact(lon1, lat1, lon2, lat2)
+            tol = REL * abs(ex) + _area_tol(lon1, lon2)
+            if not (area[k] > 0) or abs(area[k] - ex) > tol:
+                bad = f"get_cell_area()[{k}] = {area[k]!r} for the cell at {org[k].tolist()!r}, dh={dhf!r}; expected {ex!r} (> 0)"
+                break
+            # additivity over a partition of the cell: two latitude bands, two longitude halves
+            lm, pm = lat1 + dhf / 3, lon1 + dhf / 4
+            s1 = gab(lon1, lat1, lon2, lm) + gab(lon1, lm, lon2, lat2)
+            s2 = gab(lon1, lat1, pm, lat2) + gab(pm, lat1, lon2, lat2)
+            whole = gab(lon1, lat1, lon2, lat2)
+            if abs(s1 - whole) > REL * abs(whole) + 3 * _area_tol(lon1, lon2) or abs(s2 - whole) > REL * abs(whole) + 3 * _area_tol(lon1, lon2) \
+                    or abs(whole - area[k]) > REL * abs(whole) + _area_tol(lon1, lon2):
+                bad = (f"area of the cell at {org[k].tolist()!r} (dh={dhf!r}) is not additive: whole {whole!r}, latitude bands {s1!r}, "
+                       f"longitude halves {s2!r}, get_cell_area {area[k]!r}")
+                break
+    if bad:
+        run.count("ORACLE-FAIL-area")
+        run.oracle_failure(dict(base, points=[], what="get_cell_area"), bad)
+        return
+    if n > 3000:
+        return
+    bits = lambda v: str(struct.unpack("<Q", struct.pack("<d", float(v)))[0])
+    q = drv.ask(" ".join(["c01_area", ",".join(bits(v) for v in org[:, 0]), ",".join(bits(v) for v in org[:, 1]), bits(dhf)]))
+    pending.append(dict(kind="area", q=q, base=base, area=area, org=org, dhf=dhf))
+
+
+def flush_area(run, rec, line):
+    import struct
+    vals = [struct.unpack("<d", struct.pack("<Q", int(t)))[0] for t in line.split(",")] if line not in ("-", "bad-op") else None
+    if vals is None or len(vals) != len(rec["area"]):
+        run.mismatch(dict(rec["base"], points=[], what="get_cell_area"), f"{len(rec['area'])} areas", line[:100])
+        return
+    exact = 0
+    for k, (a, m) in enumerate(zip(rec["area"], vals)):
+        lon1 = float(rec["org"][k, 0])
+        if abs(a - m) > REL * abs(m) + _area_tol(lon1, lon1 + rec["dhf"]):
+            run.mismatch(dict(rec["base"], points=[], what="get_cell_area", polygon=k), repr(float(a)), repr(m))
+            return
+        exact += a == m
+    _bits(run, exact == len(vals), "get_cell_area")
 
 
 # ----------------------------------------------------------------------------------------------- generators
@@ -613,9 +1033,24 @@ def gen_lattice(rng, tier):
     mask = None
     if rng.random() < 0.3:
         mask = [1 if rng.random() < 0.75 else rng.choice([0, 0, 2]) for _ in cells]
+    ctor = rng.choice(["from_origins", "polygons"])
+    dh_int = rng.random() < 0.5
+    origins = "float" if rng.random() < 0.2 else "decimal"
+    if mask is None and origins == "decimal" and rng.random() < 0.3:
+        # from_origins WITHOUT dh: the code infers the spacing from the first two origins, which it assumes to be adjacent
+        # cells (D30) — move an adjacent pair of distinct cells to the front, if there is one
+        cs = set(cells)
+        pairs = [(c, (c[0] + a, c[1] + b)) for c in cells for a, b in ((1, 0), (0, 1), (-1, 0), (0, -1), (1, 1), (-1, 1), (1, -1), (-1, -1))
+                 if (c[0] + a, c[1] + b) in cs]
+        if pairs:
+            c0, c1 = rng.choice(pairs)
+            rest = list(cells)
+            rest.remove(c0)
+            rest.remove(c1)
+            cells = [c0, c1] + rest
+            ctor = "from_origins_nodh"
     return dict(kind="lattice", ax=str(ax), ay=str(ay), dh=str(dh), cells=[list(c) for c in cells], mask=mask,
-                ctor=rng.choice(["from_origins", "polygons"]), dh_int=rng.random() < 0.5,
-                origins="float" if rng.random() < 0.2 else "decimal",
+                ctor=ctor, dh_int=dh_int, origins=origins,
                 meta=f"{kind}/{shape}/{hole}/{order}")
 
 
@@ -657,8 +1092,19 @@ def run(run, rng, tier):
                      budget=(600 if big else 2500) if tier == "quick" else (2500 if big else 8000),
                      arrays=not big, ncat=2, tag="shipped:" + name)
         flush(run, drv, pending)
+    _finish_bits(run)
     run.assumptions.append("polygon k of a generated lattice is hashed by the library to the bounding-box position of its "
                            "lattice coordinates (checked through get_cartesian / bbox_mask on every region)")
+
+
+def _finish_bits(run):
+    b = run.extra.pop("_bit", [0, 0, {}])
+    run.extra["bitexact_agreement"] = f"{b[0]}/{b[1]}"
+    run.extra["bitexact_differences"] = b[2]
+    if b[0] != b[1]:
+        run.assumptions.append("bit-exactness with the Soft64 model of the construction path lost on some regions: the Soft64 "
+                               "theorem midpoint_hash_correct no longer applies to the code as it is; the exact-layer theorems, "
+                               "the direct oracles and the correspondence of the discrete outputs still do")
 
 
 def replay(run, payload):
@@ -670,3 +1116,4 @@ def replay(run, payload):
                  arrays=case["region"]["kind"] != "shipped" or not case["region"]["name"].startswith("global"),
                  tag="replay")
     flush(run, drv, pending)
+    _finish_bits(run)
